@@ -82,6 +82,11 @@ structure Req where
   allowed : List Nat
   host : Nat
   strict : Bool
+  /-- `numBlocksOwned` at the start of the request: the host's BlockAffinity objects — in ANY
+  state (pending, confirmed, pendingDeletion: `getAffineBlocks` lists them all) — for blocks of
+  the pools selected for the request. -/
+  owned : Nat := 0
+  cap : Nat := 20
 
 /-- What `autoAssign` is given by its caller, as a guard on the model's events: the block lies
 in a pool selected for the request, the reserved ordinals handed to the scan are the
@@ -106,7 +111,9 @@ structure DSt where
   ranges : List (Nat × Nat) := []
   zones : List Nat := []
   strict : Bool := false
+  cfgMax : Nat := 0
   reqs : List (Nat × Req) := []
+  claimed : List (Nat × Nat) := []   -- thread ↦ new claims made so far by its request
 
 def DSt.env (d : DSt) : Env20 :=
   { poolOf := fun b => d.bpool.getD b 0, base := fun b => d.bbase.getD b 0, size := fun b => d.bsize.getD b 0,
@@ -146,7 +153,8 @@ def step (d : DSt) (line : String) : DSt × String :=
        bsize := ((kvOf rest "bsz").bind parseNats).getD [],
        ranges := parseRanges ((kvOf rest "rrange").getD "-"),
        zones := ((kvOf rest "zones").bind parseNats).getD [],
-       strict := kvOf rest "strict" == some "1" }, o)
+       strict := kvOf rest "strict" == some "1",
+       cfgMax := (kvNat rest "maxblk").getD 0 }, o)
   | "begin" :: t :: "autoassign" :: rest =>
     let (c, o) := driverStep C19.chk d.cas line
     match t.toNat?, kvNat rest "host" with
@@ -155,14 +163,30 @@ def step (d : DSt) (line : String) : DSt × String :=
       let req := ((kvOf rest "req").bind parseNats).getD []
       let team := (kvNat rest "ns").getD 0
       let allowed := (allowedPools d.pools req (d.zones.getD host 0) team use).getD []
-      ({ d with cas := c, reqs := (t, { allowed := allowed, host := host, strict := d.strict }) :: d.reqs }, o)
+      -- the host's affinity objects, whatever their state, inside the selected pools
+      let owned := ((List.range d.cas.nb).filter (fun b =>
+        (d.cas.aff host b).isSome && allowed.contains (d.bpool.getD b 0))).length
+      let cap := effCap d.cfgMax ((kvNat rest "maxblk").getD 0)
+      ({ d with cas := c, reqs := (t, { allowed := allowed, host := host, strict := d.strict, owned := owned, cap := cap }) :: d.reqs }, o)
     | _, _ => ({ d with cas := c }, o)
   | "step" :: _ =>
     let (c, o) := driverStep C19.chk d.cas line
     let g := match parseStep (words line) with
       | some cl => guard20 d.env d.req (.call cl)
       | none => true
-    ({ d with cas := c }, if g then o else o ++ " GUARD20")
+    -- a NEW claim (the request's thread creates an affinity object of its host) is allowed only
+    -- if `allowNewClaim (owned + claims so far) cap`
+    let (d', capOk) := match parseStep (words line) with
+      | some cl =>
+        match cl.key, cl.verb, d.req cl.t with
+        | .aff x _, .create, some r =>
+          if x == r.host && casOutcome (d.cas.curRev cl.key) cl.verb cl.rev cl.fault == Outcome.ok then
+            let k : Nat := ((d.claimed.find? (fun (p : Nat × Nat) => p.1 == cl.t)).map (fun (p : Nat × Nat) => p.2)).getD 0
+            ({ d with claimed := (cl.t, k + 1) :: d.claimed }, allowNewClaim (r.owned + k) r.cap)
+          else (d, true)
+        | _, _, _ => (d, true)
+      | none => (d, true)
+    ({ d' with cas := c }, (if g then o else o ++ " GUARD20") ++ (if capOk then "" else " CAPGUARD"))
   | "pool" :: rest =>
     match parsePool rest with
     | some p => ({ d with pools := d.pools ++ [p] }, "ok")
